@@ -39,7 +39,7 @@ def TIMEOUT(tier):
 def gen_cases(tier, seed):
     thorough = tier == "thorough"
     cases = []
-    scen = ["S2", "S3", "S4", "S5", "S6", "S7"]
+    scen = ["S2", "S3", "S4", "S5", "S6", "S7", "S8"]
     for mode in ("mem", "sqlite"):
         cases.append({"kind": "sched", "mode": mode, "scenario": "S2", "n": 2, "strategy": "dfs", "p": 2 if thorough else 1, "seed": seed, "budget": 300 if thorough else 30})
         reps = 10 if thorough else 1
@@ -49,6 +49,10 @@ def gen_cases(tier, seed):
                               "seed": seed * 131 + j + 17 * r, "budget": 200 if thorough else 30})
     for i in range(20 if thorough else 4):
         cases.append({"kind": "rand", "seed": seed * 7919 + i, "n": 100 if thorough else 25})
+    # one requester, strictly sequential changes, history writers starved / reordered by the scheduler:
+    # here the history's own order (what get_history returns) must be the order of the changes
+    for mode in ("mem", "sqlite"):
+        cases.append({"kind": "seqsched", "mode": mode, "count": 400 if thorough else 40, "seed": seed * 311 + 5, "budget": 200 if thorough else 25})
     return cases
 
 
@@ -162,12 +166,104 @@ def run_rand(case, V, hooks, distinct):
     hooks["schedules"] += 0
 
 
+def run_seqsched(case, V, hooks, distinct):
+    import hashlib
+    from vlib import sched as S, shims as SH, vclock, probes
+    from pynenc.invocation.status import InvocationStatus
+    from pynenc.exceptions import InvocationStatusError
+    from vtasks import basic
+    mode = case["mode"]
+    edges, _, _ = load_doc_edges()
+    model = Lifecycle(edges)
+    td = TmpDir()
+    counter = {"n": 0}
+    rng = random.Random(case["seed"])
+    clock = vclock.VClock(tick=1e-5)
+    inst = vclock.install(clock, only=["pynenc.invocation.status", "pynenc.state_backend.base_state_backend"])
+    totals = Counter()
+
+    def scenario(sc):
+        import os
+        counter["n"] += 1
+        db = td.db(f"q{counter['n'] % 20}.sqlite")
+        for ext in ("", "-wal", "-shm"):
+            try:
+                os.remove(db + ext)
+            except FileNotFoundError:
+                pass
+        log = probes.Log()
+        pr = probes.install(log)
+        app = make_app(mode, db, app_id=f"c10q{mode}", cached_status_time=0.0)
+        task = app.task(basic.echo)
+        ctx = runner_ctx("R", "only-runner")
+        invs = [task(i).invocation_id for i in range(2)]
+        flush_history(app)
+        order = {i: ["REGISTERED"] for i in invs}
+        seed = rng.randrange(1 << 30)
+
+        def main():
+            r = random.Random(seed)
+            for _ in range(r.randint(6, 14)):
+                i = r.choice(invs)
+                rec = app.orchestrator.get_invocation_status_record(i)
+                legal = [s for s in STATUSES if model.has_edge(rec.status.name, s)]
+                if not legal:
+                    continue
+                req = r.choice(legal)
+                try:
+                    app.orchestrator.set_invocation_status(i, InvocationStatus[req], ctx)
+                    order[i].append(req)
+                except InvocationStatusError:
+                    pass
+        sc.spawn("main", main)
+
+        def fin():
+            pr.uninstall()
+            flush_history(app)
+            vios, stats = oracles.history_check(app, log.events, model)
+            totals.update(stats)
+            out = [(s_, w_, x_) for s_, w_, x_ in vios]
+            for i in invs:
+                got = [h.status_record.status.name for h in app.state_backend.get_history(i)]
+                totals["own_order_checked"] += 1
+                if got != order[i]:
+                    out.append(("history:own-order-differs-from-change-order:single-requester",
+                                f"invocation {i[:8]}: changes were made in the order {order[i]} by one runner, get_history returns {got}", {"made": order[i], "returned": got}))
+            return out[:6] or None
+        return fin
+
+    shims = SH.Shims() if mode == "mem" else SH.Shims(threading_modules=["pynenc.state_backend.base_state_backend"], time_modules=["pynenc.util.sqlite_utils"])
+    try:
+        res = S.explore(scenario, strategy="pct", n=case["count"], seed=case["seed"], sql=(mode == "sqlite"), shims=shims, max_steps=8000,
+                        time_budget=case.get("budget"), depth=3)
+    finally:
+        inst.uninstall()
+        td.close()
+    hooks["schedules"] += res["schedules"]
+    hooks["histories_compared"] += totals["invocations"]
+    hooks["history_entries"] += totals["entries"]
+    hooks["nonlinear_lifecycles"] += totals["nonlinear"]
+    hooks["own_order_checked"] += totals["own_order_checked"]
+    hooks["random_sequences"] += 0
+    for s_ in res["signatures_nontrivial"]:
+        distinct.append([mode, "seqsched", s_])
+    for r in res["results"]:
+        base = {"mode": mode, "choices": r["choices"], "trace_tail": r["trace"][-30:]}
+        if r.get("error"):
+            V.append({"sig": f"harness-error:{mode}", "what": r["error"][:400], "witness": base})
+        for sig, what, wit in (r.get("out") or []):
+            V.append({"sig": f"{sig}:{mode}", "what": what, "witness": {**base, "detail": wit}})
+    return res.get("inconclusive")
+
+
 def run_case(case):
     hooks = Counter()
     V, distinct = [], []
     inconc = None
     if case["kind"] == "sched":
         inconc = run_sched(case, V, hooks, distinct)
+    elif case["kind"] == "seqsched":
+        inconc = run_seqsched(case, V, hooks, distinct)
     else:
         run_rand(case, V, hooks, distinct)
     seen, out = Counter(), []
